@@ -10,8 +10,11 @@ from dataclasses import dataclass, field
 from typing import Any
 
 VERIF_DIR = os.path.dirname(os.path.dirname(os.path.abspath(__file__)))
-EVIDENCE_DIR = os.path.join(VERIF_DIR, "evidence")
-REPLAY_DIR = os.path.join(VERIF_DIR, "replays")
+# VERIF_OUT_DIR redirects evidence and replay files (used by tools/sensitivity.py so that runs against
+# deliberately broken scratch copies never overwrite the evidence of /repo itself)
+_OUT = os.environ.get("VERIF_OUT_DIR") or VERIF_DIR
+EVIDENCE_DIR = os.path.join(_OUT, "evidence")
+REPLAY_DIR = os.path.join(_OUT, "replays")
 KNOWN_FINDINGS = os.path.join(VERIF_DIR, "known_findings.json")
 
 
